@@ -21,12 +21,21 @@ use octo_squirrel::relay;
 use octo_squirrel::relay::End;
 use tokio::io::AsyncRead;
 use tokio::io::AsyncWrite;
+#[cfg(not(octo_squirrel_verif))]
 use tokio::net::TcpStream;
+#[cfg(octo_squirrel_verif)]
+use octo_squirrel::verif::net::TcpStream;
+#[cfg(not(octo_squirrel_verif))]
 use tokio::net::UdpSocket;
+#[cfg(octo_squirrel_verif)]
+use octo_squirrel::verif::net::UdpSocket;
 use tokio_util::bytes::BytesMut;
 use tokio_util::codec::Decoder;
 use tokio_util::codec::Encoder;
+#[cfg(not(octo_squirrel_verif))]
 use tokio_util::udp::UdpFramed;
+#[cfg(octo_squirrel_verif)]
+use octo_squirrel::verif::net::UdpFramed;
 use tokio_websockets::ServerBuilder;
 
 pub(super) mod message {
